@@ -238,10 +238,10 @@ Lemma zskipn_map : forall {A B} (f : A -> B) l k, zskipn k (map f l) = map f (zs
 Proof. intros. unfold zskipn. apply skipn_map. Qed.
 
 (* ---- drop_many on cells ------------------------------------------------------------------------------- *)
-Fixpoint drop_spec (cur : list cell) (R : list (Z * Z)) : list cell :=
+Fixpoint drop_spec (post : list tok) (cur : list cell) (R : list (Z * Z)) : list cell :=
   match R with
   | [] => cur
-  | (a, b) :: r => drop_spec (del_res (zfirstn a cur) (zfirstn (b + 1 - a) (zskipn a cur)) (zskipn (b + 1) cur)) r
+  | (a, b) :: r => drop_spec post (del_res (zfirstn a cur) (zfirstn (b + 1 - a) (zskipn a cur)) (zskipn (b + 1) cur) post) r
   end.
 
 Lemma cut3_first : forall {A} (X M Y : list A), zfirstn (zlen X) (X ++ M ++ Y) = X /\
@@ -258,11 +258,11 @@ Variables seps sepsb : list (kind * str).
 Theorem drop_loop_layout : forall R pre pht cur post (items : list item) U,
   rchain U R -> U <= zlen cur -> WF ph pre pht cur post ->
   zfirstn (U + 1) items = zfirstn (U + 1) (map item_of cur) ->
-  drop_loop ph (lay pre pht cur post) items R = (lay pre pht (drop_spec cur R) post, Ok tt) /\
-  WF ph pre pht (drop_spec cur R) post /\
-  (exists M, Edits cur (drop_spec cur R) M []) /\
-  (Sep seps sepsb cur -> Sep seps sepsb (drop_spec cur R)) /\
-  map item_of (drop_spec cur R) = drop_items (map item_of cur) R.
+  drop_loop ph (lay pre pht cur post) items R = (lay pre pht (drop_spec post cur R) post, Ok tt) /\
+  WF ph pre pht (drop_spec post cur R) post /\
+  (exists M, Edits cur (drop_spec post cur R) M []) /\
+  (Sep seps sepsb cur -> Sep seps sepsb (drop_spec post cur R)) /\
+  map item_of (drop_spec post cur R) = drop_items (map item_of cur) R.
 Proof.
   induction R as [|[a b] r IH]; intros pre pht cur post items U Hr HU Hwf Hag.
   - cbn. split; [reflexivity|]. split; [exact Hwf|]. split; [exists []; constructor|]. split; [tauto|reflexivity].
@@ -281,8 +281,8 @@ Proof.
         now rewrite Hag. }
     rewrite (del_layout ph pre pht A M B post Hwf HMne).
     destruct (del_res_wf ph pre pht A M B post Hwf) as [Hwf1 _].
-    destruct (IH pre pht (del_res A M B) post items (zlen A - 1) Hr) as (E & Hw & (M2 & He) & Hs & Hi).
-    + replace (zlen (del_res A M B)) with (zlen (map item_of (del_res A M B))) by apply zlen_map.
+    destruct (IH pre pht (del_res A M B post) post items (zlen A - 1) Hr) as (E & Hw & (M2 & He) & Hs & Hi).
+    + replace (zlen (del_res A M B post)) with (zlen (map item_of (del_res A M B post))) by apply zlen_map.
       rewrite del_res_items, zlen_map, zlen_app. pose proof (zlen_nonneg B). lia.
     + exact Hwf1.
     + replace (zlen A - 1 + 1) with (zlen A) by lia.
@@ -322,8 +322,8 @@ Proof.
     [now apply sort_desc_sdesc|intros y Hy; apply Hb; now apply sort_desc_in|].
   destruct (drop_loop_layout ph seps sepsb (runs_desc (sort_desc idxs) None) pre pht cs post (map item_of cs) (zlen cs) H1)
     as (E & Hw & (M & He) & Hs & Hi); [lia|exact Hwf|reflexivity|].
-  exists (drop_spec cs (runs_desc (sort_desc idxs) None)), M.
-  assert (Hit : map item_of (drop_spec cs (runs_desc (sort_desc idxs) None)) = remove_positions (sort_desc idxs) (map item_of cs)).
+  exists (drop_spec post cs (runs_desc (sort_desc idxs) None)), M.
+  assert (Hit : map item_of (drop_spec post cs (runs_desc (sort_desc idxs) None)) = remove_positions (sort_desc idxs) (map item_of cs)).
   { rewrite Hi. symmetry. apply drop_items_remove; [exact Hn|]. intros y Hy. rewrite zlen_map. now apply Hb. }
   split; [|split; [exact Hw|split; [exact He|split; [exact Hs|exact Hit]]]].
   unfold drop_many_core. cbn [s_doc s_items]. rewrite E, Hit. reflexivity.
